@@ -2,6 +2,7 @@
 # usage: tools/sweep.sh "<props>" "<seeds>" [tier]  -- runs checks, prints one line per run, lists alarms at the end
 PROPS=${1:-"C03 C04 C05 C06 C07 C10 C13 C15 C16 C17 C18 C19 C20"}; SEEDS=${2:-"1 2 3"}; TIER=${3:-quick}
 cd "$(dirname "$0")/.."
+[ -n "${VP_RUN_REPO:-}" ] && export VERIF_REPO=$VP_RUN_REPO
 bad=""
 for p in $PROPS; do for s in $SEEDS; do
   out=$(VERIF_SEED=$s ./vcheck $p --tier $TIER 2>&1); rc=$?
